@@ -4,7 +4,6 @@ import MythVerif.Proofs.WsQueueTsoTac
 namespace MythVerif.WsqTso
 open MythVerif.Wsq
 
-set_option maxHeartbeats 4000000 in
 theorem f_O_baseI (s s' : St) (v : Int) (e : Elem) (rest : List Sto) : Inv s → s.bufO = .baseI v e :: rest →
     s' = applySto { s with bufO := rest } (.baseI v e) → Inv s' := by
   intro h hb hs
@@ -18,13 +17,12 @@ theorem f_O_baseI (s s' : St) (v : Int) (e : Elem) (rest : List Sto) : Inv s →
         v = s.lb - 1 ∧ rest = [] ∧ s.ptr (s.lb - 1) = some e ∧ s.sh = 0 ∧ s.top = s.lt ∧ s.base = s.lb := by grind
     subst hr
     have hmw := mwin_cons s.A s.ptr s.lb s.top _ e h.mwin hp
-    cases h; simp only [hpc, ownerLocked, carry, resetting, ownerFlight] at *
+    simp only [hpc, resetting] at hmw
+    tso_coreO h hpc [pt9]
     constructor
-    all_goals (try simp only [ownerLocked, carry, resetting, ownerFlight, upd_apply, applySto])
-    case mwin => exact hmw
-    case pt9 => intro _; exact Or.inr ⟨hsh0, htop, by omega, Or.inr (Or.inr rfl)⟩
-    tso_rest
-  all_goals (exfalso; cases h; simp only [hpc, ownerLocked, carry, resetting, ownerFlight] at *)
-  all_goals tso_absurd
+    case mwin => (try simp only [resetting, upd_apply, applySto]); exact hmw
+    case pt9 => intro _; exact Or.inr ⟨hsh0, htop, by simp only []; omega, Or.inr (Or.inr rfl)⟩
+    tso_goalsO h hpc
+  all_goals tso_absurd_core h hpc
 
 end MythVerif.WsqTso
